@@ -1,3 +1,308 @@
+import Cello.Dispatch
+import CelloGen.Disp
 import Driver.Common
-/- driver for engine `disp` — stub, replaced when the engine is built -/
-def main (_args : List String) : IO Unit := IO.println "O not-implemented"
+/- driver for engine `disp` (C08): executes the op file of harness/h_disp.c on the model `Cello.Dispatch` and prints the
+   same `O` lines.  Besides, on every lookup it checks the model against itself: the observation equals `specObs` of the
+   declaration, the executable invariant `invb` holds afterwards, and the small-step machine run alone (`runSolo`) ends
+   in the state and result of the sequential functions; a failure prints `O MODEL-INCONSISTENT …` (a divergence). -/
+open Cello.Dispatch
+
+namespace DispDrv
+
+def slots : List (Nat × Cls) := CelloGen.Disp.cacheSlots.map (fun p => (p.1, ⟨0, p.2⟩))
+def castCls : Cls := ⟨0, "Cast"⟩
+def probeNames : List String := ["ProbeS0", "ProbeS1", "ProbeS2", "ProbeS3"]
+def maxT : Nat := 8192
+def maxC : Nat := 4096
+def maxRow : Nat := 300
+def cellW : Nat := 8
+
+structure St where
+  w : World
+  kinds : List (Nat × Nat)        -- tid ↦ 1 library type | 2 static probe | 3 run-time type
+  rcls : List (Nat × String)
+  syms : List (Nat × String)      -- tid ↦ symbol of a B/S-bound type object
+deriving Inhabited
+
+def St.init : St := { w := { slots := slots, theType := 0, types := [] }, kinds := [], rcls := [], syms := [] }
+
+def kindOf (s : St) (tid : Nat) : Nat := ((s.kinds.find? (fun p => p.1 = tid)).map (·.2)).getD 0
+def setKind (s : St) (tid k : Nat) (sym : String := "") : St :=
+  { s with kinds := (tid, k) :: s.kinds.filter (fun p => p.1 ≠ tid), syms := (tid, sym) :: s.syms.filter (fun p => p.1 ≠ tid) }
+def symOf (s : St) (tid : Nat) : String := ((s.syms.find? (fun p => p.1 = tid)).map (·.2)).getD ""
+
+def dropStr (s : String) (n : Nat) : String := String.ofList (s.toList.drop n)
+
+def clsOf (s : St) (tok : String) : Option Cls :=
+  if tok.startsWith "b." then
+    let nm := dropStr tok 2
+    if CelloGen.Disp.declared.any (fun d => d.1 = nm) || probeNames.contains nm then some ⟨0, nm⟩ else none
+  else if tok.startsWith "r." then
+    match (dropStr tok 2).toNat? with
+    | some k => (s.rcls.find? (fun p => p.1 = k)).map (fun p => ⟨k + 1, p.2⟩)
+    | none => none
+  else none
+
+def clsTok (c : Cls) : String := if c.id = 0 then "b." ++ c.name else "r." ++ toString (c.id - 1)
+
+def excName : Exc → String
+  | .TypeError => "TypeError" | .ValueError => "ValueError" | .ClassError => "ClassError" | .OutOfMemoryError => "OutOfMemoryError"
+  | .FormatError => "FormatError"
+
+def showOptInst : Outcome (Option Inst) → String
+  | .ok none => "NULL" | .ok (some i) => s!"#{i.id}" | .raised e => excName e | .ub => "ub"
+def showInst : Outcome Inst → String
+  | .ok i => s!"#{i.id}" | .raised e => excName e | .ub => "ub"
+def showBool : Outcome Bool → String
+  | .ok b => if b then "1" else "0" | .raised e => excName e | .ub => "ub"
+def excOf {α : Type} : Outcome α → String
+  | .ok _ => "none" | .raised e => excName e | .ub => "ub"
+
+def dumpRec (t : TypeRec) (memoIds : Bool) : String :=
+  let cs := (List.range t.cache.length).filterMap (fun i =>
+    match t.cache[i]? with
+    | some (some inst) => some s!"{i}:{inst.id}"
+    | _ => none)
+  let ms := ((List.range t.entries.length).zip t.entries).filterMap (fun p =>
+    match p.2.memo with
+    | some c => some (if memoIds then s!"{p.1}:{clsTok c}" else s!"{p.1}")
+    | none => none)
+  s!" c={",".intercalate cs} m={",".intercalate ms} h={if t.hdr then 1 else 0}"
+
+def dump (s : St) (tid : Nat) (memoIds : Bool := true) : String :=
+  if kindOf s tid < 2 then "" else
+  match s.w.get tid with
+  | some t => dumpRec t memoIds
+  | none => ""
+
+/-- `Name:flags` → (Name, flags) -/
+def parseItem (tok : String) : Option (String × List Bool) :=
+  match tok.splitOn ":" with
+  | [nm, fl] =>
+    if nm.isEmpty then none else
+    if fl.toList.all (fun c => c = '0' || c = '1') && fl.length ≤ cellW then some (nm, fl.toList.map (· = '1')) else none
+  | _ => none
+
+def parseRow (toks : List String) : Option (List (String × List Bool)) := toks.mapM parseItem
+
+def mkEntries (row : List (String × List Bool)) : List (String × Inst) :=
+  ((List.range row.length).zip row).map (fun p => (p.2.1, ⟨p.1, p.2.2⟩))
+
+/-- model-internal consistency of one record-level lookup -/
+def selfCheck (t : TypeRec) (op : Op) (t' : Option TypeRec) : Option String :=
+  let r := applyOp slots t op
+  let D := declared t.entries
+  if r.2 ≠ specObs t.sentinel D op then some "observation differs from specObs" else
+  if !invb slots r.1 then some "invariant broken" else
+  if t' ≠ some r.1 then some "world-level and record-level results differ" else
+  match op with
+  | .lookup cls =>
+    let m := runSolo slots (soloFuel t.entries.length) t (.start true cls)
+    match r.2 with
+    | .inst (.ok v) => if m = (r.1, PC.done cls v) then none else some "step machine differs from instanceOf"
+    | _ => none
+  | .implements cls =>
+    let m := runSolo slots (soloFuel t.entries.length) t (.start false cls)
+    let sc := scan t cls
+    if m = (sc.1, PC.done cls sc.2) then none else some "step machine differs from scan"
+  | _ => none
+
+def lcg (x : Nat) : Nat := (x * 6364136223846793005 + 1442695040888963407) % 18446744073709551616
+
+/-- N threads looking the classes up on a cold record, under a pseudo-random interleaving of their atomic steps -/
+def simulate (t0 : TypeRec) (nth : Nat) (classes : List Cls) (seed : Nat) : TypeRec × Bool :=
+  let t := reset t0
+  let D := declared t.entries
+  let nc := classes.length
+  let todoOf (j : Nat) : List (Bool × Cls) :=
+    let order := (List.range nc).map (fun i => (((if j % 2 = 1 then nc - 1 - i else i) + j / 2) % nc))
+    (order.filterMap (fun c => classes[c]?)).flatMap (fun c => [(true, c), (false, c), (false, c), (true, c), (true, c)])
+  let sys : Sys := { shared := t, threads := (List.range nth).map (fun j => Thread.new (todoOf j)) }
+  let fuel := nth * (nc * 5 * (soloFuel t.entries.length + 4) + 4)
+  let rec go (fuel : Nat) (s : Sys) (x : Nat) (ok : Bool) (cnt : Nat) : Sys × Bool :=
+    match fuel with
+    | 0 => (s, ok)
+    | fuel + 1 =>
+      let live := (List.range s.threads.length).filter (fun j => match s.threads[j]? with | some th => !th.finished | none => false)
+      if live.isEmpty then (s, ok) else
+      let x := lcg x
+      let pick := live[(x / 8589934592) % live.length]?.getD 0
+      -- bursts: run the picked thread for 1–4 steps
+      let burst := 1 + (x / 17) % 4
+      let s := (List.range burst).foldl (fun s _ => sysStep slots s pick) s
+      let ok := ok && (if cnt % 64 = 0 then invb slots s.shared else true)
+      go fuel s x ok (cnt + 1)
+  let (s, ok) := go fuel sys seed true 0
+  let allDone := s.threads.all (fun th => th.finished)
+  let logsOK := s.threads.all (fun th => th.log.all (fun p => p.2 = D p.1.name) && th.log.length = nc * 5)
+  (s.shared, ok && allDone && logsOK && invb slots s.shared)
+
+end DispDrv
+
+open DispDrv
+
+def bad : IO Unit := IO.println "O bad-op"
+
+def lookupOp (s : St) (op : String) (tid : Nat) (cls : Cls) (k : Nat) : IO St := do
+  let some t := s.w.get tid | do bad; return s
+  let upper := op = "I" || op = "P" || op = "M" || op = "Q"
+  let self : Self := if upper then .typeObj tid else .obj .good tid
+  -- an out-of-struct member read is undefined behaviour: never executed on either side
+  if (op = "M" || op = "Q" || op = "m" || op = "q") then
+    match declared t.entries cls.name with
+    | some inst => if k ≥ inst.members.length then do bad; return s
+    | none => pure ()
+  let (w', res, mop) : World × String × Op :=
+    if op = "I" then let r := typeInstanceW s.w self cls; (r.1, showOptInst r.2, Op.lookup cls)
+    else if op = "i" then let r := instanceW s.w self cls; (r.1, showOptInst r.2, Op.lookup cls)
+    else if op = "P" then let r := typeScanW s.w self cls; (r.1, showBool (match r.2 with | .ok v => .ok v.isSome | .raised e => .raised e | .ub => .ub), Op.implements cls)
+    else if op = "p" then let r := implementsW s.w self cls; (r.1, showBool r.2, Op.implements cls)
+    else if op = "M" then let r := typeMethodAtW s.w self cls k; (r.1, showInst r.2, Op.methodAt cls k)
+    else if op = "m" then let r := methodAtW s.w self cls k; (r.1, showInst r.2, Op.methodAt cls k)
+    else if op = "Q" then let r := typeImplementsMethodAtW s.w self cls k; (r.1, showBool r.2, Op.implementsMethodAt cls k)
+    else let r := implementsMethodAtW s.w self cls k; (r.1, showBool r.2, Op.implementsMethodAt cls k)
+  match selfCheck t mop (w'.get tid) with
+  | some msg => IO.println s!"O MODEL-INCONSISTENT {op} {msg}"
+  | none => pure ()
+  let s' := { s with w := w' }
+  IO.println s!"O {op} {res}{dump s' tid}"
+  return s'
+
+def main (args : List String) : IO Unit := do
+  let lines ← Driver.inputLines args
+  let mut s := St.init
+  for l in lines do
+    if Driver.isSkippable l then continue
+    let toks := Driver.words l
+    match toks with
+    | [] => continue
+    | "G" :: rest =>
+      let items := rest.filterMap (fun t => match t.splitOn ":" with | [i, c] => i.toNat?.map (fun i => (i, c)) | _ => none)
+      if items.length ≠ rest.length then bad
+      else IO.println s!"O G n={items.length} {if items = CelloGen.Disp.cacheSlots then "ok" else "MISMATCH"}"
+    | ["C", k, nm] =>
+      match k.toNat? with
+      | some k =>
+        if k ≥ maxC || s.rcls.any (fun p => p.1 = k) then bad
+        else
+          s := { s with rcls := (k, nm) :: s.rcls }
+          IO.println s!"O C {k}"
+      | none => bad
+    | op :: tidS :: sym :: rest =>
+      if op = "B" || op = "S" then
+        match tidS.toNat?, parseRow rest with
+        | some tid, some row =>
+          let known := if op = "B" then CelloGen.Disp.declared.any (fun d => d.1 = sym) else probeNames.contains sym
+          if tid ≥ maxT || rest.length > maxRow || !known then bad
+          else
+            let t := mkType CelloGen.Disp.cacheNum false (mkEntries row) (op = "B" && sym = "Terminal")
+            let ok := if op = "B" then (CelloGen.Disp.declared.find? (fun d => d.1 = sym)).map (·.2) = some row else true
+            s := setKind { s with w := s.w.put tid t } tid (if op = "B" then 1 else 2) sym
+            IO.println s!"O {op} {tid} n={row.length} {if ok then "ok" else "bad"}{dump s tid}"
+        | _, _ => bad
+      else if op = "T" then
+        match tidS.toNat?, parseRow rest with
+        | some tid, some row =>
+          let cl := row.mapM (fun p => (clsOf s p.1).map (fun c => (c.name, p.2)))
+          match cl with
+          | some named =>
+            if tid ≥ maxT || rest.length > maxRow then bad
+            else
+              match typeNew CelloGen.Disp.cacheNum CelloGen.Disp.maxInstances (mkEntries named) with
+              | .ok t =>
+                s := setKind { s with w := s.w.put tid t } tid 3
+                IO.println s!"O T {tid} n={row.length} ok{dump s tid}"
+              | .raised e =>
+                s := setKind { s with w := { s.w with types := s.w.types.filter (fun p => p.1 ≠ tid) } } tid 0
+                IO.println s!"O T {tid} n={row.length} {excName e}"
+              | .ub => bad
+          | none => bad
+        | _, _ => bad
+      else if op = "K" && rest.isEmpty then
+        match tidS.toNat?, sym.toNat? with
+        | some tid, some tid2 =>
+          if kindOf s tid = 0 || kindOf s tid2 = 0 then bad
+          else
+            let r := castW castCls s.w (.obj .good tid) tid2
+            s := { s with w := r.1 }
+            let res := match r.2 with | .ok .self => "self" | .ok .custom => "custom" | .raised e => excName e | .ub => "ub"
+            IO.println s!"O K {res}{dump s tid}"
+        | _, _ => bad
+      else if op = "E" then
+        -- E <kind> <tid> <cls> : here tidS = kind, sym = tid
+        match sym.toNat?, rest with
+        | some tid, [ctok] =>
+          match clsOf s ctok with
+          | some cls =>
+            if kindOf s tid = 0 then bad
+            else if tidS = "nontype" then
+              if symOf s tid = "Type" then bad
+              else
+                let self : Self := .obj .good tid
+                let r1 := typeScanW s.w self cls
+                let r2 := typeImplementsMethodAtW r1.1 self cls 0
+                s := { s with w := r2.1 }
+                IO.println s!"O E nontype {excOf r1.2} {excOf r2.2} TypeError TypeError"
+            else
+              let selfO : Option Self := if tidS = "null" then some .null else if tidS = "dead" then some (.obj .dead tid)
+                else if tidS = "bad" then some (.obj .bad tid) else none
+              match selfO with
+              | some self =>
+                let r1 := instanceW s.w self cls
+                let r2 := implementsW r1.1 self cls
+                let r3 := methodAtW r2.1 self cls 0
+                let r4 := castW castCls r3.1 self tid
+                s := { s with w := r4.1 }
+                IO.println s!"O E {tidS} {excOf r1.2} {excOf r2.2} {excOf r3.2} {excOf r4.2}"
+              | none => bad
+          | none => bad
+        | _, _ => bad
+      else if op = "H" then
+        -- H <tid> <nthreads> <rounds> <cls>… : sym = nthreads
+        match tidS.toNat?, sym.toNat?, rest with
+        | some tid, some nth, rS :: ctoks =>
+          match rS.toNat?, ctoks.mapM (clsOf s), s.w.get tid with
+          | some rounds, some classes, some t =>
+            if classes.isEmpty || nth < 1 || nth > 64 || rounds < 1 || rounds > 100000 then bad
+            else
+              let (t', ok) := simulate t nth classes (tid * 1000003 + nth * 7919 + rounds)
+              if !ok then IO.println "O MODEL-INCONSISTENT H the interleaved step machine broke the invariant or returned a non-declared instance"
+              s := { s with w := s.w.put tid t' }
+              IO.println s!"O H n={nth * rounds * classes.length} bad=0{dump s tid false}"
+          | _, _, _ => bad
+        | _, _, _ => bad
+      else if ["I", "P", "i", "p", "J"].contains op && rest.isEmpty then
+        match tidS.toNat?, clsOf s sym with
+        | some tid, some cls =>
+          if kindOf s tid = 0 then bad
+          else if op = "J" then
+            -- the lookup happens in Type's record: type number 0 must be bound to the library's `Type`
+            if !(kindOf s 0 = 1 && symOf s 0 = "Type") then bad
+            else
+              let r := instanceW s.w (.typeObj tid) cls
+              s := { s with w := r.1 }
+              IO.println s!"O J {showOptInst r.2}{dump s tid}"
+          else s ← lookupOp s op tid cls 0
+        | _, _ => bad
+      else if ["M", "Q", "m", "q"].contains op then
+        match tidS.toNat?, clsOf s sym, rest with
+        | some tid, some cls, [kS] =>
+          match kS.toNat? with
+          | some k => if kindOf s tid = 0 || k ≥ cellW then bad else s ← lookupOp s op tid cls k
+          | none => bad
+        | _, _, _ => bad
+      else bad
+    | [op, tidS] =>
+      if op = "R" || op = "D" then
+        match tidS.toNat? with
+        | some tid =>
+          match s.w.get tid with
+          | some t =>
+            if kindOf s tid = 0 then bad
+            else
+              if op = "R" then s := { s with w := s.w.put tid (reset t) }
+              IO.println s!"O {op}{dump s tid}"
+          | none => bad
+        | none => bad
+      else bad
+    | _ => bad
